@@ -262,6 +262,35 @@ func runC17(c *fw.Ctx) {
 		if f := lab.CheckMap(F, mdl, nil); f != "" {
 			fail("fresh trie on the repaired store: %s", f)
 		}
+		// warm-cache repair: a trie that has read the complete state loses nodes from its store behind its back,
+		// is repaired through MergeDB, and the result is observed by a trie with a fresh cache
+		if len(removed) > 0 && si%3 == 0 && !c.Violated() {
+			W := lab.NewMPT(part, mv, root)
+			if f := lab.CheckMap(W, mdl, nil); f != "" {
+				fail("warm-up read of the repaired store: %s", f)
+			}
+			for i, n := range nodes {
+				if removed[i] {
+					removeFromStore(part, n.Key)
+				}
+			}
+			if has, _ := lab.NewMPT(part, mv, root).HasMissingNodes(context.Background()); !has {
+				fail("harness: nodes removed from the store are still found by a fresh trie")
+			}
+			if err := W.MergeDB(donor, root, nil); err != nil {
+				fail("MergeDB on a trie with a warm cache failed: %v", err)
+			}
+			if memSnapshot(donor) != dsnap {
+				fail("MergeDB (warm cache) changed the donor store")
+			}
+			F2 := lab.NewMPT(part, mv, root)
+			if has, _ := F2.HasMissingNodes(context.Background()); has {
+				fail("after MergeDB through a trie with a warm cache, a fresh trie on the same store still has missing nodes")
+			} else if f := lab.CheckMap(F2, mdl, nil); f != "" {
+				fail("after MergeDB through a trie with a warm cache, a fresh trie reads: %s", f)
+			}
+			c.Count("warm_cache_repairs", 1)
+		}
 		c.Count("removal_sets", 1)
 		c.Count("removal:"+setKinds[si], 1)
 		if mv != int64(nver) || len(origins) > 1 {
@@ -280,6 +309,15 @@ func runC17(c *fw.Ctx) {
 	}
 }
 
+func removeFromStore(db util.NodeDB, key []byte) {
+	if l, ok := db.(*util.LevelNodeDB); ok {
+		_ = l.GetCurrent().DeleteNode(key)
+		_ = l.GetPrev().DeleteNode(key)
+		return
+	}
+	_ = db.DeleteNode(key)
+}
+
 func init() {
 	fw.Register(&fw.Prop{
 		ID:    "C17",
@@ -287,7 +325,7 @@ func init() {
 		Rule: "each case builds a trie over 1..4 versions (so node origins differ) and then, for every single reachable non-root node (up to 24; exhaustive for small tries), 3 whole subtrees, 4 scattered subsets and the empty set, " +
 			"copies the trie into a store (memory / layered / persistent) without the removed nodes and a donor store with them. A trie opened at a version equal to or above the creating versions must: report HasMissingNodes iff the frontier is non-empty; " +
 			"GetAllMissingNodes == frontier (absent nodes reachable through present ones, computed by the harness); lookups through an absent node fail with ErrNodeNotFound, others return the model value, never-stored paths never return data; partial iteration yields only true pairs; " +
-			"after MergeDB(donor): content complete (also for a fresh trie on the repaired store), root unchanged, HasMissingNodes false, donor snapshot (key->encoding) byte-identical. non-trivial/distinct = (trie, removal set) pairs with a non-empty removal",
+			"after MergeDB(donor): content complete (also for a fresh trie on the repaired store), root unchanged, HasMissingNodes false, donor snapshot (key->encoding) byte-identical; for a third of the removal sets the repair is repeated through a trie whose cache is warm (it read the complete state before the nodes were deleted from its store) and judged by a fresh trie. non-trivial/distinct = (trie, removal set) pairs with a non-empty removal",
 		Cases: func(tier string) int {
 			if tier == "thorough" {
 				return 120000
@@ -295,7 +333,7 @@ func init() {
 			return 4800
 		},
 		Run:    runC17,
-		Floors: map[string]int64{"tries": 3000, "removal_sets": 50000, "removal:single": 30000, "removal:subtree": 9000, "removal:scattered": 12000, "blocked_lookups": 50000, "repairs_with_foreign_origin": 20000, "tries_with_mixed_origins": 1000},
+		Floors: map[string]int64{"tries": 3000, "removal_sets": 50000, "removal:single": 30000, "removal:subtree": 9000, "removal:scattered": 12000, "blocked_lookups": 50000, "repairs_with_foreign_origin": 20000, "tries_with_mixed_origins": 1000, "warm_cache_repairs": 10000},
 		Assumptions: []string{
 			"the donor is a MemoryNodeDB (map iteration order = arbitrary repair order)",
 			"single-node removals are exhaustive up to 24 nodes per trie; other subsets are sampled",
